@@ -3,7 +3,7 @@
    The orthogonality premise is exactly what np.linalg.eig violated on degenerate spectra (repaired by the Schur basis);
    it is monitored numerically on every run.  Over any field. *)
 From mathcomp Require Import all_ssreflect all_algebra.
-From QV Require Import Knill.
+From QV Require Import Knill IsoClose.
 Set Implicit Arguments. Unset Strict Implicit. Unset Printing Implicit Defensive.
 Import GRing.Theory.
 Local Open Scope ring_scope.
@@ -13,3 +13,9 @@ Theorem C03_knill_product : forall (F : fieldType) (n : nat) (E : 'I_n -> 'M[F]_
   \big[mulmx/1%:M]_(i <- enum 'I_n) factor E lam i = \sum_i lam i *: E i.
 Proof. move=> F n E lam H1 H2 H3. exact: knill_product. Qed.
 Print Assumptions C03_knill_product.
+
+(* the closing step of the column-by-column scheme (see IsoClose.v) *)
+Theorem C03_ccd_closing : forall (R : ringType) (N M : nat) (G Ginv D Dinv : 'M[R]_N) (V J : 'M[R]_(N, M)) (Phi : 'M[R]_M),
+  Ginv *m G = 1%:M -> G *m V = J *m Phi -> Dinv *m J = J *m Phi -> (Ginv *m Dinv) *m J = V.
+Proof. move=> R N M G Ginv D Dinv V J Phi H1 H2 H3. exact: (ccd_closing H1 H2 H3). Qed.
+Print Assumptions C03_ccd_closing.
